@@ -193,6 +193,12 @@ def conformance(rep: Report, ctx, scs):
         _selftest(cfgk, traces, ver)
     rep.extra.setdefault("verdict_classes", {}).update(counts)
     rep.extra["evaluations"] = rep.traces
+    _cnt = {}
+    for _tr, _inf in results:
+        for _e in _tr:
+            k_ = _e["e"] + ((":" + _e["comp"] + ":" + _e["phase"]) if _e["e"] == "CloseStep" else "")
+            _cnt[k_] = _cnt.get(k_, 0) + 1
+    rep.extra["trace_action_counts"] = _cnt
     rep.extra["distinct_nontrivial"] = nontriv
     rep.extra["stops_with_unhealthy_cluster"] = nontriv
     return results
